@@ -200,6 +200,7 @@ mod prompt_arm {
         pub compiles: u32,
         pub loops: u32,
         pub cursors: u32,
+        pub run_ended_in_arm: u32,
         pub compile_ok: bool,
         pub loop_completed: bool,
         pub loop_has_response_id: bool,
@@ -347,6 +348,17 @@ mod prompt_arm {
             core::mem::forget(payload);
             Ok(String::new())
         }
+        // the run-ended frame belongs to the TAIL of run_session (c07_run_tail_*: exactly one, after the terminal session frame);
+        // an arm that appends one itself ends the run twice -- recorded here, asserted by the harness
+        pub fn append_run_ended(&self, _thread: &String, _message: &String, _session: &String, reason: String, actor: String, origin: String) -> Result<String, String> {
+            let w = unsafe { &mut *self.0 };
+            w.effects += 1;
+            w.run_ended_in_arm += 1;
+            core::mem::forget(reason);
+            core::mem::forget(actor);
+            core::mem::forget(origin);
+            Ok(String::new())
+        }
     }
     // the JSON value of the cursor is not the subject
     pub mod serde_json {
@@ -398,7 +410,7 @@ macro_rules! c07_prompt_arm {
 fn $name() {
     use prompt_arm::*;
     let mut w = World { effects: 0, selection_at: 0, compiled_at: 0, loop_at: 0, cursor_at: 0, ended_at: 0, ended_frames: 0, ended_reason_len: 0, selections: 0,
-                        compiles: 0, loops: 0, cursors: 0, compile_ok: $compile_ok, loop_completed: kani::any(), loop_has_response_id: kani::any(), ids_ok: true };
+                        compiles: 0, loops: 0, cursors: 0, run_ended_in_arm: 0, compile_ok: $compile_ok, loop_completed: kani::any(), loop_has_response_id: kani::any(), ids_ok: true };
     let wp: *mut World = &mut w;
     let configured: bool = $configured;
     let linked: bool = $linked;
@@ -408,6 +420,7 @@ fn $name() {
                           lit("s"), ModelUnit, ModelArc(ModelUnit), ModelArc(ModelUnit), lit("i"));
     let w = unsafe { &*wp };
     // the fact assumed by the tail slice
+    assert!(w.run_ended_in_arm == 0, "the Prompt arm appends a run-ended frame itself: with the one the tail of run_session appends the run ends twice");
     assert!(skip == (w.ended_frames == 1) && w.ended_frames <= 1, "skip_runtime_loop is not set exactly when the arm emitted the session's end frame (the session would get no / two end frames)");
     if !configured {
         assert!(w.effects == 0 && !skip, "a prompt without a provider configuration must be left to the kernel session");
@@ -552,6 +565,16 @@ mod post_message {
         pub const NOT_FOUND: StatusCode = StatusCode(404);
         pub const INTERNAL_SERVER_ERROR: StatusCode = StatusCode(500);
         pub const ACCEPTED: StatusCode = StatusCode(202);
+        // the other codes a handler plausibly answers with (so that an added early return compiles and is JUDGED, not refused)
+        pub const OK: StatusCode = StatusCode(200);
+        pub const CREATED: StatusCode = StatusCode(201);
+        pub const NO_CONTENT: StatusCode = StatusCode(204);
+        pub const BAD_REQUEST: StatusCode = StatusCode(400);
+        pub const CONFLICT: StatusCode = StatusCode(409);
+        pub const PAYLOAD_TOO_LARGE: StatusCode = StatusCode(413);
+        pub const UNPROCESSABLE_ENTITY: StatusCode = StatusCode(422);
+        pub const TOO_MANY_REQUESTS: StatusCode = StatusCode(429);
+        pub const SERVICE_UNAVAILABLE: StatusCode = StatusCode(503);
         pub fn into_response(self) -> ModelResponse {
             ModelResponse(self.0)
         }
@@ -584,7 +607,10 @@ fn c07_post_message_spawns_one_run() {
                         run_spawned_ids_ok: false, sessions_created: 0, registered: 0, spawns: 0, spawn_at: 0, spawn_link_ok: false };
     let wp: *mut World = &mut w;
     let state = ModelState { engine: ModelEngine(wp), sessions: ModelSessions(wp) };
-    let r = post_message_part(&ModelStore3(wp), &state, lit("t"), lit("u"), lit("o"), lit("x"), None);
+    // the message text: one byte, ordinary or blank (whatever the handler does with the content, a message that WAS appended to
+    // the thread must get its run)
+    let content = sym_id1(&[b'x', b' ']);
+    let r = post_message_part(&ModelStore3(wp), &state, lit("t"), lit("u"), lit("o"), content, None);
     let w = unsafe { &*wp };
     if !w.message_ok {
         assert!(w.run_spawned == 0 && w.spawns == 0 && r.0 == 404, "a refused message spawned a run");
